@@ -110,6 +110,10 @@ class HyWorld:
                 arr = SArr(shape)
                 arr.itemsize = itemsize
                 arr.dt = vals["dtype"]
+                nel_ = 1
+                for d_ in shape:
+                    nel_ *= d_
+                arr.origin = (b, pos, nel_ * itemsize)  # the storage this view aliases
                 for n_, idx in enumerate(arr.indices()):
                     key = repr(pos + Poly.const(n_ * itemsize))
                     # never-written storage of a fresh buffer is zero (no free/reuse happens in these scenarios)
@@ -166,6 +170,11 @@ class HyWorld:
     def fresh_buf(self):
         self.nbuf += 1
         return self.buf(f"T{self.nbuf}")
+
+    def default_context(self):
+        from ..peval import Builtin
+
+        return Obj("context", {"new_buffer": Builtin("context_default.new_buffer", lambda *a, **k: self.fresh_buf())}, name="ctx:default")
 
     def mkclass(self, name, fields, extra=None, bases=None):
         I = self.I
@@ -599,6 +608,13 @@ def op_move_holder(hw, st):
     return _move(hw, st, "holder", st["holder"], "refuse")
 
 
+def op_move_wrap(hw, st):
+    # `wrap` has no reference field of its own, its nested part `h` (a Holder) has one: references anywhere inside the
+    # object forbid the move (the relative words would be copied verbatim / the referent duplicated) -- seeded C18-g
+    # looked at the object's OWN fields only
+    return _move(hw, st, "wrap", st["wrap"], "refuse")
+
+
 def op_move_referent(hw, st):
     # an object that a reference field shares must stay where it is; before it is shared it may move
     return _move(hw, st, "leaf3", st["leaf3"], "refuse" if st.get("leaf3_referenced") else "accept")
@@ -810,6 +826,7 @@ OPS = {
     "move-nested": op_move_nested,
     "move-standalone": op_move_standalone,
     "ref-same": op_ref_same,
+    "move-wrap": op_move_wrap,
     "ref-foreign": op_ref_foreign,
     "move-holder": op_move_holder,
     "move-referent": op_move_referent,
@@ -949,7 +966,7 @@ def hv(cx):
     hs = list(histories(maxlen))
     # C18 is decided on every history; for C20 / C09 the quick tier keeps the histories that end in the operation the
     # property is about (state round trip / copies and by-value assignments), after any first step
-    focus = {"C08": ("ref-same", "ref-foreign", "ref-null", "ref-plain-data", "ref-same-nested", "assign-plain-nested", "assign-holder", "construct-with-dressed", "copy-holder", "move-holder", "move-referent"),
+    focus = {"C08": ("ref-same", "ref-foreign", "ref-null", "ref-plain-data", "ref-same-nested", "assign-plain-nested", "assign-holder", "construct-with-dressed", "copy-holder", "move-holder", "move-wrap", "move-referent"),
              "C20": ("state-roundtrip",), "C09": ("copy", "copy-holder", "construct-with-nested", "construct-with-dressed", "assign-foreign", "assign-holder")}.get(cx.prop)
     if focus and cx.tier != "thorough":
         hs = [h for h in hs if h[-1] in focus]
@@ -1049,7 +1066,7 @@ def run_roundtrip(model, choice, achoice=None):
     hw.numeric_views = True
     achoice = achoice if achoice is not None else tuple([False] * len(ARRAYS))
     hw.W.copy_bytes = True
-    I.modglobals.setdefault("typeutils", {})["context_default"] = Obj("context", {}, name="ctx:default")
+    I.modglobals.setdefault("typeutils", {})["context_default"] = hw.default_context()
     found = []
 
     def walk(h, path):
@@ -1073,12 +1090,30 @@ def run_roundtrip(model, choice, achoice=None):
             v = (NEAR if other == 2 else OTHER if other else DEFAULTS)[leaf[-1]]
             want[leaf] = v
             I.setattr(walk(top, leaf), leaf[-1], v)
+        n0_ = len(I.effects)
         try:
             d = I.call(I.getattr(top, "to_dict"), [], {})
         except PyExc as e:
             held = {a[0]: awant[a[0]] for a in ARRAYS}
             found.append(f"to_dict: array field grid / dyn / dyn0 : to_dict() raises {e.etype}: {e.msg} (array fields hold {held})")
             return
+        # the dictionary must not alias memory that to_dict gave back to the allocator (the next allocation -- e.g. the
+        # next to_dict -- overwrites what such an entry shows: seeded C19-g)
+        freed = [(e_.buf, pol(e_.args[0]), pol(e_.args[1])) for e_ in I.effects[n0_:] if e_.kind == "free" and len(e_.args) >= 2]
+
+        def entries(x, path):
+            from ..peval import SArr as _SA
+
+            if isinstance(x, dict):
+                for k_, v_ in x.items():
+                    yield from entries(v_, path + [str(k_)])
+            elif isinstance(x, _SA) and getattr(x, "origin", None) is not None:
+                yield ".".join(path), x.origin
+        for nm_, (ob, op, on) in entries(d, []):
+            for fb, fp, fn_ in freed:
+                dlt = op - fp
+                if ob is fb and dlt.is_const() and fn_.is_const() and -on < dlt.const_value() < fn_.const_value():
+                    found.append(f"to_dict: the entry `{nm_}` is a view of {ob.name}+{op!r}, inside the region {fb.name}+{fp!r} ({fn_!r} bytes) that to_dict freed before returning: the next allocation in that buffer overwrites what the dictionary shows")
         # elision: a scalar is in the dictionary iff it differs from its declared default
         for leaf, other in zip(LEAVES, choice):
             dd = d
@@ -1139,7 +1174,7 @@ def run_inheritance(model):
     I = hw.I
     hw.numeric_views = True
     hw.W.copy_bytes = True
-    I.modglobals.setdefault("typeutils", {})["context_default"] = Obj("context", {}, name="ctx:default")
+    I.modglobals.setdefault("typeutils", {})["context_default"] = hw.default_context()
     found = []
 
     def thunk():
@@ -1269,7 +1304,7 @@ def _scenario(model, body):
     I = hw.I
     hw.numeric_views = body is not _sc_field_table  # (that scenario observes array attributes as views)
     hw.W.copy_bytes = True
-    I.modglobals.setdefault("typeutils", {})["context_default"] = Obj("context", {}, name="ctx:default")
+    I.modglobals.setdefault("typeutils", {})["context_default"] = hw.default_context()
     found = []
     try:
         res = I.explore(lambda: body(hw, found), max_paths=4)
